@@ -281,6 +281,10 @@ func TestCheck(t *testing.T) {
 				t1 := pager.RTx{Mods: []uint32{2}, NewSize: s + 3, FreeLeaves: true, Final: fin, Outcome: "commit"}
 				t2 := pager.RTx{Mods: []uint32{s + 1}, Final: fin, Outcome: "commit"}
 				cases = append(cases, prog.Case{PageSize: ps, Start: s, Ops: []prog.Op{{Kind: "rtx", R: &t1}, {Kind: "rtx", R: &t2}, {Kind: "restart"}}})
+				// the same with an ordinary new page in front of the unwritten ones
+				t3 := pager.RTx{Mods: []uint32{2}, NewSize: s + 4, FreeLeaves: true, FirstNew: 1, Final: fin, Outcome: "commit"}
+				t4 := pager.RTx{Mods: []uint32{s + 2}, Final: fin, Outcome: "commit"}
+				cases = append(cases, prog.Case{PageSize: ps, Start: s, Ops: []prog.Op{{Kind: "rtx", R: &t3}, {Kind: "rtx", R: &t4}, {Kind: "restart"}}})
 			}
 		}
 	}
